@@ -68,16 +68,18 @@ def rule_tokens(ctx):
             continue
         tok = toks[0]
         act = (a["action"] or "").replace(" ", "")
+        lt1 = (grammar.leaf_texts(a) or [None])
+        act1 = lt1[0] if len(lt1) == 1 else act
         if tok.endswith("=") and tok not in ("=", "<==", "==", "<=", ">=", "!=") and len(tok) >= 2:
             n += 1
             base = tok[:-1]
-            m = re.search(r"assign_with_op_shortcut\((ExpressionInfixOpcode::\w+),Meta::new\(s,e\),variable,rhe\)", act)
+            m = re.search(r"assign_with_op_shortcut\((ExpressionInfixOpcode::\w+),Meta::new\(s,e\),variable,rhe\)", act1)
             want = infix.get(base)
             ctx.check(R, "grammar/compound[%s]" % tok, m is not None and want is not None and m.group(1) == want, "action: %s ; infix token `%s` is %s" % (act[:100], base, want), (GR, a["line"]))
         elif tok in ("++", "--"):
             n += 1
             f = "plusplus" if tok == "++" else "subsub"
-            ctx.check(R, "grammar/compound[%s]" % tok, act == "ast_shortcuts::%s(Meta::new(s,e),variable)" % f, "action: %s" % act, (GR, a["line"]))
+            ctx.check(R, "grammar/compound[%s]" % tok, act1 == "ast_shortcuts::%s(Meta::new(s,e),variable)" % f, "action: %s" % act, (GR, a["line"]))
     ctx.floor(R, "compound assignment productions", n, 14)
     # loops and branches
     st2 = nts.get("ParseStatement2")
@@ -88,7 +90,9 @@ def rule_tokens(ctx):
     for i, a in enumerate(fors):
         names = [s["name"] for s in a["symbols"] if s["name"] and s["kind"] == "nt"]
         act = (a["action"] or "").replace(" ", "")
-        ok = names == ["init", "cond", "step", "body"] and act == "ast_shortcuts::for_into_while(Meta::new(s,e),init,cond,step,body)"
+        lt1 = (grammar.leaf_texts(a) or [None])
+        act1 = lt1[0] if len(lt1) == 1 else act
+        ok = names == ["init", "cond", "step", "body"] and act1 == "ast_shortcuts::for_into_while(Meta::new(s,e),init,cond,step,body)"
         # the header order in the source text: init ; cond ; step
         seq = [s["text"] if s["kind"] == "str" else s["name"] for s in a["symbols"] if s["kind"] in ("str", "nt")]
         ok = ok and seq == ['"for"', '"("', "init", '";"', "cond", '";"', "step", '")"', "body"]
@@ -96,8 +100,10 @@ def rule_tokens(ctx):
     wh = [a for a in st2["alts"] if any(s["kind"] == "str" and s["value"] == "while" for s in a["symbols"])]
     for a in wh:
         act = (a["action"] or "").replace(" ", "")
+        lt1 = (grammar.leaf_texts(a) or [None])
+        act1 = lt1[0] if len(lt1) == 1 else act
         seq = [s["text"] if s["kind"] == "str" else s["name"] for s in a["symbols"] if s["kind"] in ("str", "nt")]
-        ctx.check(R, "grammar/while", act == "build_while_block(Meta::new(s,e),cond,stmt)" and seq == ['"while"', '"("', "cond", '")"', "stmt"], "symbols %s ; action %s" % (seq, act), (GR, a["line"]))
+        ctx.check(R, "grammar/while", act1 == "build_while_block(Meta::new(s,e),cond,stmt)" and seq == ['"while"', '"("', "cond", '")"', "stmt"], "symbols %s ; action %s" % (seq, act), (GR, a["line"]))
     ctx.floor(R, "while productions", len(wh), 1)
     n = 0
     for ntn in ("ParseStmt0NB", "ParseStatement1"):
@@ -110,11 +116,13 @@ def rule_tokens(ctx):
                 continue
             n += 1
             act = (a["action"] or "").replace(" ", "")
+            lt1 = (grammar.leaf_texts(a) or [None])
+            act1 = lt1[0] if len(lt1) == 1 else act
             names = [s["name"] for s in a["symbols"] if s["name"] and s["kind"] == "nt"]
             if "else_case" in names:
-                ok = names == ["cond", "if_case", "else_case"] and act == "build_conditional_block(Meta::new(s,e),cond,if_case,Some(else_case))"
+                ok = names == ["cond", "if_case", "else_case"] and act1 == "build_conditional_block(Meta::new(s,e),cond,if_case,Some(else_case))"
             else:
-                ok = names == ["cond", "if_case"] and act == "build_conditional_block(Meta::new(s,e),cond,if_case,None)"
+                ok = names == ["cond", "if_case"] and act1 == "build_conditional_block(Meta::new(s,e),cond,if_case,None)"
             ctx.check(R, "grammar/if[%s#%d]" % (ntn, n), ok, "bindings %s ; action %s" % (names, act), (GR, a["line"]))
     ctx.floor(R, "if productions", n, 4)
     # the builders put the parts in the right fields
